@@ -181,6 +181,10 @@ func genModel(r *rng, k genKnobs) *Model {
 					}
 					ts.Direct = append(ts.Direct, ref)
 				}
+				if k.Invalid && r.chance(15) {
+					// a tupleset without type restrictions
+					ts.Direct = nil
+				}
 				t.Relations = append(t.Relations, ts)
 				tuplesets[t] = append(tuplesets[t], ts)
 			}
@@ -287,6 +291,10 @@ func genModel(r *rng, k genKnobs) *Model {
 				}
 				if k.Invalid && r.chance(20) {
 					cands = append(cands, "ghost")
+				}
+				if k.Invalid && r.chance(8) {
+					// a tupleset relation the type does not define
+					return &Expr{Kind: KTTU, Rel: r.pick(relPool), Tupleset: "nosuchtupleset"}
 				}
 				if len(cands) > 0 {
 					return &Expr{Kind: KTTU, Rel: r.pick(cands), Tupleset: ts.Name}
@@ -480,4 +488,69 @@ func genWildcardLattice(r *rng) *Model {
 		names = append(names, name)
 	}
 	return m
+}
+
+// emptyDirectUnderOperator reports whether some relation has a direct
+// assignment WITHOUT type restrictions as a direct child of an intersection or
+// as the base of an exclusion (the trigger shape of known finding D12).
+func emptyDirectUnderOperator(m *Model) bool {
+	for _, t := range m.Types {
+		for _, rel := range t.Relations {
+			if len(rel.Direct) > 0 {
+				continue
+			}
+			found := false
+			var rec func(e *Expr)
+			rec = func(e *Expr) {
+				if e == nil {
+					return
+				}
+				if e.Kind == KInter {
+					for _, c := range e.Children {
+						if c.Kind == KThis {
+							found = true
+						}
+					}
+				}
+				if e.Kind == KExcl && len(e.Children) > 0 && e.Children[0].Kind == KThis {
+					found = true
+				}
+				for _, c := range e.Children {
+					rec(c)
+				}
+			}
+			rec(rel.Expr)
+			if found {
+				return true
+			}
+		}
+	}
+	return false
+}
+
+// injectEmptyDirect removes the type restrictions of one relation whose direct
+// assignment sits directly under an intersection or is the base of an
+// exclusion (a shape only JSON/protobuf can express). Returns false when the
+// model has no such relation.
+func injectEmptyDirect(r *rng, m *Model) bool {
+	var cands []*Relation
+	for _, t := range m.Types {
+		for _, rel := range t.Relations {
+			if len(rel.Direct) == 0 {
+				continue
+			}
+			saved := rel.Direct
+			rel.Direct = nil
+			probe := &Model{Types: []*Type{{Name: t.Name, Relations: []*Relation{rel}}}}
+			if emptyDirectUnderOperator(probe) {
+				cands = append(cands, rel)
+			}
+			rel.Direct = saved
+		}
+	}
+	if len(cands) == 0 {
+		return false
+	}
+	cands[r.intn(len(cands))].Direct = nil
+	return true
 }
